@@ -169,7 +169,7 @@ claim('C17', 'Lean 4 theorems on a retained-data counting model with drop rules 
       "FALSE in three families (multi-block messages with a lagging consumer; block-aligned lines on plain files), shown by kernel evaluation of the model and matching the binary "
       "(F8, F25); the bound IS proved for every number of messages in the geometry `one message per block boundary, at most M lines each, prompt consumer` by an invariant over the "
       "stage-3 loop (C17_bound_partial_general: 7 blocks / 5M+1 lines / 5 messages on a plain file, 2 / 5M+1 / 5 streamed), unfolding the regenerated facts that drop_sysline hands ALL lines to "
-      "drop_lines and drop_lines visits EVERY line (counter-model drop_lines_short_circuit_grows); several messages per block are covered end to end only (partial). Tie: high-water marks from --summary on generated files growing x10 at the default and small "
+      "drop_lines and drop_lines visits EVERY line (counter-model drop_lines_short_circuit_grows); GENERAL geometry (MemGeneralSpec): for every message list with at most M lines per message, a message inside at most B consecutive blocks and at most P messages starting per block, and a consumer that is not lagging, syslines high <= P(B+1)+2, lines high <= M(P(B+1)+2)+1, streamed blocks high <= 2, plain blocks high <= 5B-3 when no line ends on a block end (C17_bound_general; the same for the model with the always-skipped first drop target found by the tie, C17_bound_general_skip, DROP_BLOCK_LAST_INIT regenerated); each side condition is refuted for every bound (prompt_is_needed = F8, crossed_is_needed = F25, visit_all_is_needed = seeded C17-a, dense_is_needed); a lagging consumer with several messages per block is covered end to end only. Tie: high-water marks from --summary on generated files growing x10 at the default and small "
       "block sizes, plain and compressed, one-line and 61-line messages.",
       TB + "Runtime behaviour the model cannot exhibit: allocator, real RSS; which messages the consumer still holds depends on scheduling.",
       "DESIGN.md §6 C17")
